@@ -11,10 +11,19 @@ Bounded exhaustive enumeration: every problem class importable here x every cons
   (d) split siblings: sum of the pieces == the unsplit sibling's eval_f on the same state,
   (e) closed-form u_exact: u_exact(0) == configured initial condition, d/dt u_exact == eval_f along it
       (4th-order central difference, two step sizes, truncation estimated from their difference),
-  (f) a default-constructed class has a solver tolerance that is a tolerance (residual small against the solution).
+  (f) a default-constructed class has a solver tolerance that is a tolerance (residual small against the solution),
+  (g) a Newton solver that reports failure is counted, not judged -- except on a case where plain Newton on the class's
+      own eval_f (difference Jacobian, same guess) converges with strictly decreasing residuals within 12 iterations.
 
-Nothing is sampled.  VERIF_SEED only chooses which members of a fixed pattern pool serve as "generic data".
-For Newton-based classes the lattice is an alphabet, not a proof over all states (said in the evidence).
+Outcome classes that are counted and not judged: reported failure (ProblemError / ConvergenceError / logged warning /
+scipy MatrixRankWarning), other exceptions (singular factorisations), documented stubs ("Just return the exact solution"),
+singular systems (factor = 0 in the first-order spectral formulations, 1 - factor*lambda = 0), cases that straddle a
+discontinuity of the right-hand side, Newton misses where the reference Newton fails as well (hard cases).
+
+Nothing is sampled.  VERIF_SEED only chooses which members of two fixed pattern pools serve as "generic data" (one smooth
+member for the state perturbation, one member with grid-scale content for the right-hand side) and permutes the order of
+equally expensive work items.  For Newton-based classes the lattice is an alphabet, not a proof over all states (said in
+the evidence).
 """
 
 import inspect
@@ -433,6 +442,7 @@ class Acc:
         self.counts = {}
         self.worst = 0.0
         self.worst_case = None
+        self.worst_by_kind = {}
         self.viol = []
         self.evals = 0
         self.nontrivial = 0
@@ -443,8 +453,13 @@ class Acc:
     def count(self, k, n=1):
         self.counts[k] = self.counts.get(k, 0) + n
 
-    def ratio(self, r, case):
-        if np.isfinite(r) and r > self.worst:
+    def ratio(self, r, case, kind='other'):
+        if not np.isfinite(r):
+            return
+        k = 'krylov' if kind == 'krylov' else 'direct_newton_closed_form'
+        if r > self.worst_by_kind.get(k, 0.0):
+            self.worst_by_kind[k] = float(r)
+        if r > self.worst:
             self.worst, self.worst_case = float(r), case
 
     def violation(self, check, what, detail, case):
@@ -579,24 +594,39 @@ def residual_check(acc, cname, prob, method, part, spec, mask, u, rhs, factor, t
     c2 = dict(case, err=err, tol=tol)
 
     ok = ratio <= 1.0
+    if ok and reports_failure(msgs):
+        acc.count('reported_failure(warning)')
+        return
     if ok and mask is not None:
         # constraint rows and boundary rows instead satisfy their constraint
         sys_scale = float(np.max(np.abs(mask.M) @ np.abs(mask.hat(u)))) + abs(factor) * extra['constraint_scale'] + float(np.max(np.abs(mask.M @ mask.hat(rhs))))
         rowscale = max(abs(factor), 1e-300)  # the algebraic rows enter the solved system as factor * (L u) = 0
         ctol = ((C_KRY * spec['rtol'] * float(np.linalg.norm(mask.M @ mask.hat(rhs))) if kind == 'krylov' else 0.0) + C_ROUND * EPS * sys_scale * np.sqrt(n)) / rowscale
         btol = (C_KRY * spec['rtol'] if kind == 'krylov' else 0.0) * max(1.0, extra['bc_scale']) + C_ROUND * EPS * extra['bc_scale'] * n
-        acc.ratio(extra['constraint'] / ctol, dict(c2, row='constraint'))
-        acc.ratio(extra['bc'] / btol, dict(c2, row='boundary'))
-        acc.count('constraint_rows_checked')
-        acc.count('boundary_conditions_checked(independent interpolant)', extra['nbc'])
+        if (extra['constraint'] > ctol or extra['bc'] > btol) and reports_failure(msgs):
+            acc.count('reported_failure(warning)')
+            return
         if extra['constraint'] > ctol:
-            acc.violation('constraint_rows', f'{method}: algebraic rows violate their constraint', {'expected': f'|L u| <= {ctol:.3g}', 'observed': extra['constraint'], 'case': case}, case)
+            d = {'expected': f'|L u| <= {ctol:.3g} on the algebraic rows', 'observed': extra['constraint'], 'solver': dict(spec), 'case': case}
+            if kind == 'krylov':  # same cause as a missed residual: the iteration stopped early, nothing said
+                acc.violation('residual', f'{method}: iterative linear solver result misses the configured rtol and nothing is reported', d, case)
+            else:
+                acc.violation('constraint_rows', f'{method}: algebraic rows violate their constraint', d, case)
             return
         if extra['bc'] > btol:
-            acc.violation('boundary_rows', f'{method}: boundary condition not satisfied by the solution', {'expected': f'|BC(u) - v| <= {btol:.3g}', 'observed': extra['bc'], 'case': case}, case)
+            d = {'expected': f'|BC(u) - v| <= {btol:.3g}', 'observed': extra['bc'], 'solver': dict(spec), 'case': case}
+            if kind == 'krylov':
+                acc.violation('residual', f'{method}: iterative linear solver result misses the configured rtol and nothing is reported', d, case)
+            else:
+                acc.violation('boundary_rows', f'{method}: boundary condition not satisfied by the solution', d, case)
             return
     if ok:
-        acc.ratio(ratio, c2)
+        acc.ratio(ratio, c2, kind)
+        if mask is not None:
+            acc.ratio(extra['constraint'] / ctol, dict(c2, row='constraint'), kind)
+            acc.ratio(extra['bc'] / btol, dict(c2, row='boundary'), kind)
+            acc.count('constraint_rows_checked')
+            acc.count('boundary_conditions_checked(independent interpolant)', extra['nbc'])
         acc.count('ok' if factor != 0.0 else 'ok(factor=0 returns rhs)')
         if factor != 0.0 and snap(u) != snap(guess) and snap(u) != snap(rhs):
             acc.nontrivial += 1
@@ -816,7 +846,7 @@ def closed_form_checks(acc, cname, prob, params, cf, pids):
         want_b = np.broadcast_to(want, got.shape) if want.size in (1, got.size) else want
         acc.evals += 1
         err = float(np.max(np.abs(got - np.asarray(want_b).ravel())))
-        tol = 10 * EPS * max(1.0, float(np.max(np.abs(want))))
+        tol = 50 * EPS * max(1.0, float(np.max(np.abs(want))))
         if err > tol:
             acc.violation('closed_form_ic', 'u_exact(0) differs from the configured initial condition', {'expected': np.asarray(want).tolist(), 'observed': got.tolist()}, dict(case0, sub='ic'))
         else:
@@ -1067,6 +1097,7 @@ def run(rep, tier):
     errors = []
     viol = {}
     slow = []
+    worst_kind = {}
     for kind, r in results:
         c = per_class.setdefault(r['cname'], {'variants': [], 'outcomes': {}, 'worst_ratio': 0.0, 'sibling_checks': [], 'evaluations': 0})
         if kind == 'variant':
@@ -1085,6 +1116,8 @@ def run(rep, tier):
         for k, v in r['raised_other'].items():
             c.setdefault('raised_other', {})[k] = c.get('raised_other', {}).get(k, 0) + v
         c['worst_ratio'] = max(c['worst_ratio'], r['worst'])
+        for k, v in r['worst_by_kind'].items():
+            worst_kind[k] = max(worst_kind.get(k, 0.0), v)
         c['cpu_s'] = round(c.get('cpu_s', 0.0) + r['info'].get('wall', 0.0), 2)
         slow.append((r['info'].get('wall', 0.0), r['cname'], r['label']))
         c['evaluations'] += r['evals']
@@ -1144,6 +1177,8 @@ def run(rep, tier):
             'slowest_items': [list(x) for x in sorted(slow, reverse=True)[:8]],
             'outcomes_total': outcome_total,
             'worst_ratio': worst[0],
+            'worst_ratio_by_solver_kind': worst_kind,
+            'worst_ratio_note': 'direct / Newton / closed-form cases: a Newton solver may stop anywhere below its tolerance, so ratios up to 1/C_CONF = 0.1 are by construction. Krylov cases: scipy reports non-convergence through info, which several classes discard (see violations); unconverged results that are nevertheless within 1e3*eps*scale pass with ratios close to 1',
             'worst_headroom': (1.0 / worst[0]) if worst[0] > 0 else None,
             'worst_case': worst[1],
             'per_class': per_class,
